@@ -135,7 +135,10 @@ ldb_writer_add_record(ldb_writer_t *lw, const ldb_slice_t *slice) {
         if (lw->dst != NULL)
           ldb_buffer_concat(lw->dst, &padding);
         else
-          ldb_wfile_append(lw->file, &padding);
+          rc = ldb_wfile_append(lw->file, &padding);
+
+        if (rc != LDB_OK)
+          break;
       }
 
       lw->block_offset = 0;
